@@ -3707,6 +3707,16 @@ func (r *Resolver) processDelegation(ctx context.Context, rs *resolveState, resp
 		}
 	}
 
+	// The parent's grant is the smaller of the NS and DS TTLs of the
+	// referral itself, whether or not validation retained that DS: a
+	// checking-disabled resolution never does, and its lease would
+	// otherwise run for the NS TTL alone.
+	if referralDS := dnsutil.ExtractRRSet(resp.Ns, q.Name, dns.TypeDS); len(referralDS) > 0 {
+		if dsDeadline := observedAt.Add(time.Duration(minRRSetTTL(referralDS)) * time.Second); dsDeadline.Before(leaseDeadline) {
+			leaseDeadline = dsDeadline
+		}
+	}
+
 	// The delegation cache clamps its own entry to the lease ceiling, but
 	// this deadline also travels on - into the answer's cut, the DS/DNSKEY
 	// entries of the descent and every deeper delegation - so the ceiling has
